@@ -701,7 +701,9 @@ def cmd_new(ws, kindsign, cell=None, prop='C09'):
 
     def check(res):
         out = []
-        for nm in ('new', 'slice', 'assign'):
+        for nm in ('new', 'slice', 'assign', 'assign_f', 'assign_c', 'assign_p', 'assign_1', 'assign_0'):
+            if nm.startswith('assign_') and res.get(nm) == ('missing',):
+                continue
             out += chk_big(prop, res.get(nm), f * v, nm + ' from u32 words', kind)
         return out
 
